@@ -210,7 +210,7 @@ static int do_op(parsec_context_t *ctx, int i, const mat_op_t *o)
          * tiles hold mb*nb elements */
         parsec_vector_two_dim_cyclic_t v;
         int tl = MA.desc->mb * MA.desc->nb, cnt = (MA.desc->lmt > MA.desc->lnt ? MA.desc->lmt : MA.desc->lnt) + 1;
-        parsec_vector_two_dim_cyclic_init(&v, MA.desc->mtype, PARSEC_VECTOR_DISTRIB_DIAG, MYRANK, tl, tl * cnt, 0, tl * cnt, MA.d->P, MA.d->Q);
+        parsec_vector_two_dim_cyclic_init(&v, MA.desc->mtype, PARSEC_VECTOR_DISTRIB_COL, MYRANK, tl, tl * cnt, 0, tl * cnt, MA.d->P, MA.d->Q);
         v.mat = alloc_tiles(&v.super);
         if (v.mat) memset(v.mat, 0, (size_t)v.super.nb_local_tiles * v.super.bsiz * parsec_datadist_getsizeoftype(v.super.mtype));
         parsec_data_collection_set_key(&v.super.super, "V");
